@@ -1,5 +1,6 @@
 import Proofs.EcdsaModel
 import Proofs.EcdsaExact
+import Proofs.EcdsaTwin
 
 /-! # C11 (executable model) — every signature the model's signing function returns is accepted by the model's
 verification, for both curves, every private key, nonce, and hash: by the group law of the curve (Mathlib), not by
@@ -50,6 +51,20 @@ theorem k256_verify_iff_signed (d : ℕ) (hd : d < Ecdsa.k256.n) (h sig : Bytes)
       ∃ k, 0 < k ∧ k < Ecdsa.k256.n ∧ Ecdsa.signWith Ecdsa.k256 d k h = some sig :=
   Proofs.EcdsaExact.verify_iff_signed good_k256 d hd h sig Q hQ
 
+/-- **P-256: the twin `(r, n - s)` of an accepted signature is accepted** (ECDSA malleability, byte level) -/
+theorem p256_twin_accepted (d : ℕ) (hd : d < Ecdsa.p256.n) (h sig : Bytes) (Q : ℕ × ℕ)
+    (hQ : Ecdsa.publicKeyOf Ecdsa.p256 d = some Q) (hv : Ecdsa.verifyHash Ecdsa.p256 Q h sig = true) :
+    Ecdsa.verifyHash Ecdsa.p256 Q h
+      (natBE 32 (beNat (sig.take 32)) ++ natBE 32 (Ecdsa.p256.n - beNat (sig.drop 32))) = true :=
+  Proofs.EcdsaTwin.verify_twin good_p256 d hd h sig Q hQ hv
+
+/-- **secp256k1: the twin of an accepted signature is accepted** -/
+theorem k256_twin_accepted (d : ℕ) (hd : d < Ecdsa.k256.n) (h sig : Bytes) (Q : ℕ × ℕ)
+    (hQ : Ecdsa.publicKeyOf Ecdsa.k256 d = some Q) (hv : Ecdsa.verifyHash Ecdsa.k256 Q h sig = true) :
+    Ecdsa.verifyHash Ecdsa.k256 Q h
+      (natBE 32 (beNat (sig.take 32)) ++ natBE 32 (Ecdsa.k256.n - beNat (sig.drop 32))) = true :=
+  Proofs.EcdsaTwin.verify_twin good_k256 d hd h sig Q hQ hv
+
 /-- non-vacuity: a signature of the model under private key 5 with nonce 7 on secp256k1 exists and is accepted -/
 example : ∃ sig Q, Ecdsa.publicKeyOf Ecdsa.k256 5 = some Q ∧ Ecdsa.signWith Ecdsa.k256 5 7 (List.replicate 32 9) = some sig ∧
     Ecdsa.verifyHash Ecdsa.k256 Q (List.replicate 32 9) sig = true := by
@@ -66,3 +81,5 @@ end Props.C11Model
 #print axioms Props.C11Model.k256_sign_verify
 #print axioms Props.C11Model.p256_verify_iff_signed
 #print axioms Props.C11Model.k256_verify_iff_signed
+#print axioms Props.C11Model.p256_twin_accepted
+#print axioms Props.C11Model.k256_twin_accepted
